@@ -90,7 +90,14 @@ def gen_readers(rng, n):
             ops.append(rng.choice(["Int %d" % a, "Int %d" % a, "Rat %d" % a, "Int64 %d" % a, "Uint64 %d" % a, "IsInt %d" % a,
                                    "MinPrec %d" % a, "Cmp %d %d" % (a, b), "GobEncode %d" % a, "BitsExp %d" % a, "MantExp %d -" % a,
                                    "Add %d %d %d" % (rng.randint(0, 1), a, b), "Mul %d %d %d" % (rng.randint(0, 1), a, b)]))
+        if rng.random() < 0.5:
+            vs[4] = rng.choice([zero(0, prec=7), zero(1, prec=7), inf(0, prec=7), inf(1, prec=7)])
+            for _ in range(3):
+                ops.append(rng.choice(["Sub %d 4 %d" % (rng.randint(0, 1), rng.randint(2, 3)), "Sub %d %d 4" % (rng.randint(0, 1), rng.randint(2, 3)),
+                                       "Add %d 4 %d" % (rng.randint(0, 1), rng.randint(2, 3))]))
         rops = []
+        for a in (2, 3):
+            rops += ["Rat %d" % a, "Int %d" % a, "Cmp %d 4" % a, "Rat %d" % a]
         for _ in range(rng.randint(1, 4)):
             a = rng.randint(2, 4)
             rops.append(rng.choice(["Sqrt %d %d" % (rng.randint(0, 1), a), "Sqrt %d %d" % (rng.randint(0, 1), a),
